@@ -55,6 +55,10 @@ func main() {
 		chaosMode(r, sk)
 	case "learner":
 		learnerMode(r, sk)
+	case "contract":
+		contractMode(r, sk)
+	case "requests":
+		requestsMode(r, sk)
 	default:
 		fmt.Fprintln(os.Stderr, "unknown mode", r.Mode)
 		os.Exit(2)
@@ -148,6 +152,19 @@ func runChaos(r *common.Run, sk *sink, o chaosOpt) {
 	}
 	verifhook.SetSend(c.SendMonitor(hostOf))
 	defer verifhook.SetSend(func(*pb.Message) {})
+	atPoint := func(point int32) func(uds []pb.Update) {
+		return func(uds []pb.Update) {
+			for i := range uds {
+				if h := hostOf(uds[i].ShardID, uds[i].ReplicaID); h != nil {
+					h.AtPoint(point)
+				}
+			}
+		}
+	}
+	verifhook.SetUpdates(verifhook.PreSave, atPoint(1))
+	verifhook.SetUpdates(verifhook.PostSave, atPoint(2))
+	defer verifhook.SetUpdates(verifhook.PreSave, func([]pb.Update) {})
+	defer verifhook.SetUpdates(verifhook.PostSave, func([]pb.Update) {})
 	if err := c.StartAll(); err != nil {
 		r.Inconclusive(fmt.Sprintf("case %d: cluster did not start: %v", o.Case, err))
 		return
@@ -197,8 +214,30 @@ func runChaos(r *common.Run, sk *sink, o chaosOpt) {
 					}
 				}
 			}
-			h.Crash()
+			// crash instant: at a step-worker point (just before / just after
+			// SaveRaftState) or at an arbitrary moment
 			crashes++
+			crng := rand.New(rand.NewSource(o.Seed + 77*int64(crashes)))
+			site := "arbitrary-moment"
+			if p := crng.Intn(3); p > 0 {
+				ch := h.ArmCrash(int32(p))
+				select {
+				case <-ch:
+					site = []string{"", "before-SaveRaftState", "after-SaveRaftState"}[p]
+					h.CrashFinish()
+				case <-time.After(400 * time.Millisecond):
+					if h.Disarm() {
+						h.Crash()
+					} else {
+						<-ch
+						site = []string{"", "before-SaveRaftState", "after-SaveRaftState"}[p]
+						h.CrashFinish()
+					}
+				}
+			} else {
+				h.Crash()
+			}
+			sk.Count("crash_site_"+site, 1)
 			sk.Count("host_power_loss", 1)
 			if rand.New(rand.NewSource(o.Seed+int64(crashes))).Intn(2) == 0 {
 				time.Sleep(30 * time.Millisecond)
